@@ -288,7 +288,11 @@ class Harness:
     def exclude_known(self, finding_id, cond):
         """Leave a recorded finding's region out of this obligation (only while it is listed as open)."""
         if finding_id in self.known_open and not self.ignore_exclusions:
-            self.assume(sym.Not(cond))
+            try:
+                self.assume(sym.Not(cond))
+            except PathAbort:
+                self.excluded_by = finding_id          # the whole path lies inside the recorded finding's region
+                raise
 
     def cover(self, name):
         self.covers.add(name)
@@ -740,6 +744,8 @@ def explore(ob: Obligation, known_open=(), tier="quick"):
                     h._restore()
         except PathAbort:
             stats["aborted"] += 1
+            if getattr(h, "excluded_by", None):
+                stats["inside_known_finding"] = stats.get("inside_known_finding", 0) + 1
             exc = "abort"
         except EngineError as e:
             exc = ("engine", f"{type(e).__name__}: {e}", traceback.format_exc(limit=6))
@@ -898,10 +904,12 @@ def run_obligation(ob: Obligation, known=(), tier="quick"):
         else:
             cl["verdict"] = "discharged"
     missing = [e for e in ob.expect if e not in agg]
-    if missing:
+    if missing and not (stats["paths"] == 0 and stats.get("inside_known_finding")):
         res["undecided"].append({"clause": ",".join(missing), "why": "vacuity: expected clause never evaluated on any path"})
-    if stats["paths"] == 0:
+    if stats["paths"] == 0 and not stats.get("inside_known_finding"):
         res["undecided"].append({"clause": "@vacuity", "why": "no feasible path (precondition unsatisfiable?)"})
+    elif stats["paths"] == 0:
+        res["note"] = f"every path of this instance ({stats['inside_known_finding']}) lies inside the region of a recorded finding; nothing else to decide here"
     if stats["budget_hit"]:
         res["undecided"].append({"clause": "@paths", "why": f"path budget ({ob.max_paths} paths) or time budget exhausted after {stats['paths']} paths, {stats['wall_s']:.0f} s"})
     # known findings: replay each listed witness without its exclusion
